@@ -55,7 +55,56 @@ type tcase struct {
 var allBeh = []string{"ok", "oka", "e", "np", "npx", "ap", "jnull", "nj", "empty", "nj4", "jarr",
 	"d0", "dcl", "dch", "dchp", "st", "ps", "pss", "slow", "serr", "b200"}
 
+// A behaviour is either one of the named wire forms above or a point of the product space
+// h.<status>.<ctype j|t|n>.<body>.<transport>: see lean/ClusterVerif/Model/C16Http.lean.
+type gwire struct {
+	status   int
+	ctype    string
+	body, tr string
+}
+
+var gBodies = []string{"x", "xa", "enp", "enx", "eap", "eo", "nul", "obj", "bm", "bt", "arr", "nj", "em"}
+var gTransports = []string{"f", "d0", "sh", "c0", "c1", "sb"}
+
+func oneOf(s string, l []string) bool {
+	for _, x := range l {
+		if x == s {
+			return true
+		}
+	}
+	return false
+}
+
+func parseWire(s string) (gwire, bool) {
+	f := strings.Split(s, ".")
+	if len(f) != 5 || f[0] != "h" {
+		return gwire{}, false
+	}
+	st, err := strconv.Atoi(f[1])
+	if err != nil || st < 200 || st > 599 {
+		return gwire{}, false
+	}
+	g := gwire{st, f[2], f[3], f[4]}
+	if !oneOf(g.ctype, []string{"j", "t", "n"}) || !oneOf(g.body, gBodies) || !oneOf(g.tr, gTransports) {
+		return g, false
+	}
+	// a filter-ignoring listing that gets lost after the work was done is not a form of its own
+	if g.body == "xa" && g.tr == "c1" {
+		return g, false
+	}
+	// 204 and 304 cannot carry a body: nothing to shape, cut or stall inside
+	if (st == 204 || st == 304) && (g.body != "em" || g.tr == "c0" || g.tr == "c1" || g.tr == "sb") {
+		return g, false
+	}
+	return g, true
+}
+
+func isErrObjBody(b string) bool { return b == "enp" || b == "enx" || b == "eap" || b == "eo" }
+
 func isBeh(s string) bool {
+	if _, ok := parseWire(s); ok {
+		return true
+	}
 	for _, b := range allBeh {
 		if b == s {
 			return true
@@ -89,6 +138,9 @@ func (c tcase) timing() bool {
 	for _, b := range c.script {
 		switch b {
 		case "st", "ps", "pss", "slow":
+			return true
+		}
+		if g, ok := parseWire(b); ok && (g.tr == "sh" || g.tr == "sb") {
 			return true
 		}
 	}
@@ -289,7 +341,8 @@ func (d *daemon) ServeHTTP(w http.ResponseWriter, r *http.Request) {
 		if len(args) != 1 || q.Get("stream") != "" {
 			item = "other:" + item
 		}
-		if beh == "oka" && k == 0 && c0 >= 0 {
+		gw, isG := parseWire(beh)
+		if (beh == "oka" || (isG && gw.body == "xa")) && c0 >= 0 {
 			// truthful listing that does not honour the type filter
 			ty := map[byte]string{'r': "recursive", 'd': "direct", 'i': "indirect through " + common.CidN(len(d.table)+6).String()}[d.table[c0]]
 			if ty == "" {
@@ -393,6 +446,10 @@ func (d *daemon) ServeHTTP(w http.ResponseWriter, r *http.Request) {
 	}
 	item += meth
 	d.trace = append(d.trace, item)
+	if g, ok := parseWire(beh); ok {
+		d.serveGeneric(w, r, g, eff, isAdd, ep, arg(0)) // unlocks d.mu
+		return
+	}
 	if beh == "oka" {
 		beh = "ok"
 	}
@@ -599,6 +656,107 @@ func (d *daemon) ServeHTTP(w http.ResponseWriter, r *http.Request) {
 				`{"Keys":{"not-a-cid":{"Type":"recursive"}}}`, `{"Keys":[]}`)
 		}
 		fmt.Fprint(w, bodies[wire%len(bodies)])
+	}
+}
+
+// serveGeneric answers with a point of the product space. Called with d.mu held.
+func (d *daemon) serveGeneric(w http.ResponseWriter, r *http.Request, g gwire, eff effect, isAdd bool, ep, key string) {
+	// a daemon that answers 200 has done what was asked (an error object inside a pin/add stream says it has not);
+	// `c1`: it had done it when the connection broke
+	applies := g.status == 200 && (g.tr == "c1" || (g.tr == "f" && !(isAdd && isErrObjBody(g.body))))
+	if applies && eff.refuse != "" {
+		d.mu.Unlock()
+		w.Header().Set("Content-Type", "application/json")
+		w.WriteHeader(500)
+		fmt.Fprint(w, ipfsErrBody(eff.refuse))
+		return
+	}
+	if applies {
+		eff.apply()
+	}
+	wire := d.wire
+	d.mu.Unlock()
+
+	own := eff.body
+	if own == "" {
+		if ep == "pin/ls" {
+			own = `{"Keys":{}}`
+		} else {
+			own = `{"Pins":[]}`
+		}
+	}
+	var body string
+	switch g.body {
+	case "x", "xa":
+		body = own
+		if isAdd {
+			body = ""
+			for n := 1; n <= wire%3; n++ {
+				body += fmt.Sprintf("{\"Progress\":%d}\n", n)
+			}
+			body += own + "\n"
+		}
+	case "enp":
+		body = ipfsErrBody(msgNotPinned)
+	case "enx":
+		body = ipfsErrBody([]string{"not pinned", "pin: " + msgNotPinned, msgNotPinned + " under Qm"}[wire%3])
+	case "eap":
+		body = ipfsErrBody(key + " already pinned recursively")
+	case "eo":
+		body = ipfsErrBody([]string{"merkledag: not found", "context deadline exceeded", "some failure"}[wire%3])
+	case "nul":
+		body = "null"
+	case "obj":
+		body = []string{`{"Foo":1,"Bar":[]}`, `{}`, ` {"Strings":["x"]} `}[wire%3]
+	case "bm":
+		body = []string{`{"Message":5,"Code":0,"Type":"error"}`, `{"Message":["a"]}`, `{"Message":{"x":1},"Type":"error"}`}[wire%3]
+	case "bt":
+		switch {
+		case ep == "pin/ls":
+			body = []string{`{"Keys":[]}`, `{"Keys":7}`, `{"Keys":{"a":5}}`}[wire%3]
+		case isAdd:
+			body = []string{`{"Pins":7,"Progress":"x"}`, `{"Progress":"many"}`, `{"Pins":"a"}`}[wire%3]
+		default:
+			body = `{"Pins":7}`
+		}
+	case "arr":
+		body = []string{`["error"]`, `"error"`, `17`}[wire%3]
+	case "nj":
+		body = []string{"internal failure <html>", "404 page not found", `{"Message":"cut of`}[wire%3]
+	case "em":
+		body = ""
+	}
+	switch g.tr {
+	case "d0":
+		drop(w)
+		return
+	case "sh":
+		d.hold(r, 4*time.Second)
+		drop(w)
+		return
+	}
+	switch g.ctype {
+	case "j":
+		w.Header().Set("Content-Type", "application/json")
+	case "t":
+		w.Header().Set("Content-Type", "text/plain; charset=utf-8")
+	default:
+		w.Header()["Content-Type"] = nil
+	}
+	w.WriteHeader(g.status)
+	switch g.tr {
+	case "f":
+		fmt.Fprint(w, body)
+	case "c0", "c1", "sb":
+		flush(w)
+		if len(body) >= 2 && wire%2 == 1 {
+			fmt.Fprint(w, body[:len(body)/2])
+			flush(w)
+		}
+		if g.tr == "sb" {
+			d.hold(r, 4*time.Second)
+		}
+		drop(w)
 	}
 }
 
@@ -894,7 +1052,46 @@ func pick(r *common.Rng, l []string) string { return l[r.Intn(len(l))] }
 var failFast = []string{"e", "np", "npx", "ap", "jnull", "nj", "empty", "nj4", "jarr", "d0", "dcl", "dch", "dchp", "b200", "serr"}
 var failSlow = []string{"st", "ps", "pss", "slow"}
 
+var gStatus = []int{200, 200, 200, 201, 202, 204, 206, 300, 301, 304, 400, 403, 404, 405, 500, 500, 500, 502, 503}
+
+// genWire draws a point of the product space status x content type x body shape x transport.
+func genWire(r *common.Rng, allowTiming bool) string {
+	st := gStatus[r.Intn(len(gStatus))]
+	ct := []string{"j", "j", "t", "n"}[r.Intn(4)]
+	body := gBodies[r.Intn(len(gBodies))]
+	tr := "f"
+	switch x := r.Intn(20); {
+	case x < 13:
+	case x < 14:
+		tr = "d0"
+	case x < 16:
+		tr = "c0"
+	case x < 17:
+		tr = "c1"
+		if st != 200 {
+			tr = "c0"
+		}
+	default:
+		if allowTiming {
+			tr = []string{"sh", "sb"}[r.Intn(2)]
+		}
+	}
+	if body == "xa" && tr == "c1" {
+		tr = "c0"
+	}
+	if st == 204 || st == 304 {
+		body = "em"
+		if tr == "c0" || tr == "c1" || tr == "sb" {
+			tr = "f"
+		}
+	}
+	return fmt.Sprintf("h.%d.%s.%s.%s", st, ct, body, tr)
+}
+
 func genBeh(r *common.Rng, allowTiming bool) string {
+	if r.Chance(1, 3) {
+		return genWire(r, allowTiming)
+	}
 	x := r.Intn(100)
 	switch {
 	case x < 45:
@@ -917,6 +1114,9 @@ func genFocused(r *common.Rng) tcase {
 	c.sw = "ok"
 	c.wire = r.Intn(60)
 	b := allBeh[r.Intn(len(allBeh))]
+	if r.Chance(1, 2) {
+		b = genWire(r, true)
+	}
 	notAsAsked := func() {
 		asked := byte('r')
 		if c.depth == 0 {
@@ -1058,6 +1258,9 @@ func gen(r *common.Rng, k, total int) tcase {
 	if c.op != "unpin" && r.Chance(1, 12) {
 		c.script[0] = "oka"
 	}
+	if c.op == "pin" && c.src >= 0 && r.Chance(1, 8) {
+		c.script[1] = "oka" // the source lookup at a daemon that ignores the type filter
+	}
 	c.sw = "ok"
 	if c.norig > 0 && r.Chance(1, 3) {
 		c.sw = pick(r, []string{"e", "nj", "d0", "st", "dch"})
@@ -1073,13 +1276,15 @@ func gen(r *common.Rng, k, total int) tcase {
 
 func main() {
 	a := common.ParseArgs()
-	var cases []tcase
+	var jobs []func() string
 	if a.Extra["stdin"] != "" {
 		sc := bufio.NewScanner(os.Stdin)
 		sc.Buffer(make([]byte, 1<<20), 1<<24)
 		for sc.Scan() {
-			if c, ok := parse(sc.Text()); ok {
-				cases = append(cases, c)
+			if ac, ok := parseAux(sc.Text()); ok {
+				jobs = append(jobs, func() string { return runAux(ac) })
+			} else if c, ok := parse(sc.Text()); ok {
+				jobs = append(jobs, func() string { return run(c) })
 			}
 		}
 	} else {
@@ -1095,12 +1300,18 @@ func main() {
 			if a.Only >= 0 && k != a.Only {
 				continue
 			}
-			cases = append(cases, gen(root.Fork(uint64(k)), k, total))
+			if k%8 == 5 {
+				ac := genAux(root.Fork(uint64(k)))
+				jobs = append(jobs, func() string { return runAux(ac) })
+				continue
+			}
+			c := gen(root.Fork(uint64(k)), k, total)
+			jobs = append(jobs, func() string { return run(c) })
 		}
 	}
 	go heartbeat()
 	// cases are independent (own daemon, own connector): a small worker pool, output in case order
-	outs := make([]string, len(cases))
+	outs := make([]string, len(jobs))
 	workers := 6
 	if w, err := strconv.Atoi(os.Getenv("VERIF_C16_WORKERS")); err == nil && w > 0 {
 		workers = w
@@ -1112,11 +1323,11 @@ func main() {
 		go func() {
 			defer wg.Done()
 			for k := range next {
-				outs[k] = run(cases[k])
+				outs[k] = jobs[k]()
 			}
 		}()
 	}
-	for k := range cases {
+	for k := range jobs {
 		next <- k
 	}
 	close(next)
